@@ -63,6 +63,9 @@ type Config struct {
 	// CredScan reports whether a cleartext line carries a password-revealing payload.
 	CredScan func(line string) bool
 	Greeting time.Duration // how long to listen for early bytes before greeting
+	// LateReply: a "stall" is not for ever - after this long the server answers the command with a 451
+	// (which nobody should be waiting for any more) and goes on serving the connection
+	LateReply time.Duration
 }
 
 // Server is one scripted server bound to one recorder.
@@ -156,7 +159,7 @@ func ReplyFor(f Fault) (int, string, string) {
 	}
 	esc := fmt.Sprintf("%s.5.%d", d, f.K)
 	switch f.Shape {
-	case "lead":
+	case "lead", "multi":
 		return code, esc + " rejected by script", esc
 	case "later":
 		return code, fmt.Sprintf("rejected by script, see host 4.2.2.%d for policy", f.K), ""
@@ -236,6 +239,15 @@ func (x *session) reply(k Key, okText string, caps []string) bool {
 		_ = x.c.Close()
 		return false
 	case "stall":
+		if x.s.cfg.LateReply > 0 {
+			x.emit("stall")
+			select {
+			case <-x.s.stallCh:
+				return false
+			case <-time.After(x.s.cfg.LateReply):
+			}
+			return x.write("451 4.4.5 late reply by script\r\n") == nil
+		}
 		x.stall()
 		return false
 	case "garbage":
@@ -244,6 +256,9 @@ func (x *session) reply(k Key, okText string, caps []string) bool {
 	}
 	code, text, esc := ReplyFor(f)
 	x.emit("reply", "code", code, "cls", f.Class, "esc", esc, "caps", []string{})
+	if f.Shape == "multi" { // a multi-line negative reply (RFC 5321 4.2.1), the enhanced code on every line
+		return x.write(fmt.Sprintf("%d-%s\r\n%d-%s see policy\r\n%d %s\r\n", code, text, code, esc, code, text)) == nil
+	}
 	return x.write(fmt.Sprintf("%d %s\r\n", code, text)) == nil
 }
 
